@@ -95,13 +95,17 @@ def scenarios(rng, limit, opt):
         yield z, [b"big"] + apex, 15
     elif kind < 0.8:
         # a referral: name servers inside the delegated zone (mandatory glue) and elsewhere (optional)
-        k = rng.randint(1, 6)
+        # ... and, in a third of the cases, the delegation name ITSELF as a name server (`d NS d`, glue at the cut)
+        at_cut = rng.random() < 0.35
+        k = rng.randint(0 if at_cut else 1, 6)
         inside = [[b"ns%d" % i, b"d"] for i in range(k)]
+        if at_cut:
+            inside.insert(rng.randrange(len(inside) + 1), [b"d"])
         outside = [[b"ons%d" % i] for i in range(rng.randint(0, 3))]
         used = 12 + len(enc_name([b"x", b"d"] + apex)) + 4 + (11 if opt else 0)
         for nm in inside + outside:
             z.add([b"d"], 2, 600, enc_name(nm + apex))
-            used += 12 + len(nm[0]) + 1 + 2 + (2 if nm in outside else 0)
+            used += 12 + 2 if nm == [b"d"] else 12 + len(nm[0]) + 1 + 2 + (2 if nm in outside else 0)
         room = max(0, target - used)
         na = max(1, room // (16 * max(1, len(inside) + len(outside))))
         cnt = 0
@@ -301,7 +305,8 @@ def nontrivial(case, impl, model, oracle):
 RULE = ("each request (plain QUERY, RD random, with or without an OPT advertising 0/511/512/513/700/1232/4096/65535/random octets) is sent over "
         "UDP and over TCP to the real server (EDNS size 512/1232/4096/random); zones are built so that the complete response is within +-40 "
         "octets of the limit in effect (512 or the negotiated size): one TXT RRset of exactly tuned size, many A records, MX with target "
-        "addresses straddling the limit in the additional section, referrals with 1-6 name servers inside the delegated zone (mandatory glue) "
+        "addresses straddling the limit in the additional section, referrals with 1-6 name servers inside the delegated zone (mandatory glue; "
+        "in a third of them the delegation name ITSELF is a name server, `d NS d`, with A/AAAA glue at the cut) "
         "and 0-3 elsewhere (optional), CNAME chains of 2-10 links with labels sized to cross the limit (ending at a host, nowhere, outside, in "
         "a loop), NXDOMAIN with a SOA of tuned size; plus the nested catalogs of C05 under random negotiation; both responses are compared "
         "OCTET FOR OCTET with the model (query model over the Writer model), and the extracted pair relation is the oracle; non-trivial = TC, "
@@ -334,6 +339,10 @@ CHECK = {
     "assumptions": ["requests of this suite are plain QUERYs with one question and at most one OPT (version 0, no TSIG); "
                     "response buffer of 65535 octets as the I/O providers pass"],
 }
+
+# ---- second suite: CORRECTLY SIGNED requests (checks/siggen.py). Oracle-decided: no model of TSIG-bearing octets exists.
+import siggen
+CHECK["suites"].append(siggen.suite(siggen.oracle_c04, siggen.findings_c04))
 
 MANIFEST = {
     "level_text": ("Coq theorems (no axioms). Server model: the limit of every response handle_message yields is 65535 over TCP, 512 "
